@@ -1,3 +1,3 @@
 #!/bin/bash
-# usage: sany.sh Module.tla  (run in spec dir)
-exec java -cp /opt/veriftools/tla/tla2tools.jar:/opt/veriftools/tla/CommunityModules-deps.jar tla2sany.SANY "$@"
+# usage: sany.sh Module.tla  (run in spec dir) -- prints only problems
+java -cp /opt/veriftools/tla/tla2tools.jar:/opt/veriftools/tla/CommunityModules-deps.jar tla2sany.SANY "$@" 2>&1 | grep -v "^Parsing file\|^Semantic processing\|^Linting of\|^\*\*\*\*\*\* SANY2\|^$"
